@@ -396,8 +396,18 @@ func (engine) Run(ci any) lib.Result {
 			return res
 		}
 	}
+	// the order in which a fan-in lists its sources follows Go's map iteration: a graph with a
+	// fan-in is run several times in every stream paradigm; the first run that does not agree
+	// with Invoke is the one that is kept
+	reps := 1
+	if c.Kind == "prog" && stats(c.Prog).pars > 0 {
+		reps = fanInReps
+	}
 	for par := 0; par < 4; par++ {
 		obs.P[par] = r.call(par, x, chunks)
+		for k := 1; k < reps && par > 0 && sameOutcome(obs.P[0], obs.P[par]); k++ {
+			obs.P[par] = r.call(par, x, chunks)
+		}
 		obs.Calls[par] = callsJSON(obs.P[par].calls)
 	}
 	res.Obs = obs
@@ -532,6 +542,16 @@ func caseNesting(c *Case) (nested, typed bool) {
 		}
 	})
 	return
+}
+
+const fanInReps = 4
+
+// both fail, or both succeed with the same value
+func sameOutcome(a, b POut) bool {
+	if a.ok() != b.ok() {
+		return false
+	}
+	return !a.ok() || vEqual(a.Val, b.Val)
 }
 
 func natStr(n [4]bool) string {
